@@ -73,6 +73,17 @@ example : ∃ d d', depthFixed (one [fld "a" [fld "c"], fld "d"]).fuel (anon [fl
     "F" [fld "a" [fld "c"]] [.spread "F" {}, fld "d"] (.here [] [fld "d"]) rfl
     (by intro f hf; cases hf) (by intro f hf; cases hf) (by decide) (by simp [anon])
 
+/-- the declarative validity is inhabited by the same documents -/
+example : ValidDecl richDoc [("v", false)] :=
+  ⟨by unfold UniqueNames; decide, acyclic_sound _ (by decide), (valid_of_checks richDoc [("v", false)] (by decide) (by decide) (by decide)).2⟩
+
+/-- the pipeline at limit 0 (the falsy limit): a flat request is executed, a depth-1 request is rejected, a
+    request the default validator rejects is rejected without a depth error; nothing raises -/
+example : pipeline 5 0 none (one [fld "c"]) [[]] [] 0 = .executed := by decide
+example : pipeline 5 0 none (one [fld "a" [fld "c"]]) [[]] [] 0 = .rejected [(0, 1)] 0 := by decide
+example : (pipeline 5 0 none (one [fld "c"]) [[]] [] 2).depthRejected = false := by decide
+example : (pipeline 5 0 (some "Nope") (one [fld "a" [fld "c"]]) [[]] [] 0) = .executed := by decide
+
 /-! ### refutations on the unchanged rule (defect Q1) -/
 
 /-- the full statements, for an arbitrary implementation `r` of the rule -/
